@@ -7,7 +7,7 @@ from torch.nn import ModuleList
 
 from ..priors import Prior
 from ..utils.generic import length_safe_zip
-from .kernel import Kernel
+from .kernel import _index_batch_shape, Kernel
 from .multitask_kernel import MultitaskKernel
 
 
@@ -68,6 +68,8 @@ class LCMKernel(Kernel):
 
     def __getitem__(self, index):
         new_kernel = deepcopy(self)
+        if len(self._batch_shape):
+            new_kernel.batch_shape = _index_batch_shape(self._batch_shape, index)
         new_kernel.covar_module_list = ModuleList(
             [base_kernel.__getitem__(index) for base_kernel in self.covar_module_list]
         )
